@@ -18,7 +18,7 @@ def parseCfg (s : String) : Option Cfg :=
   | _ => none
 
 /-- Hook spec: `-` none, `K` keep, `R` replace by application object #callIndex,
-    `F<i>` fail at call i (replace otherwise). -/
+    `F<i>` fail at call i (replace otherwise); `G<i>` the same, the Go hook then returns a non-nil value with its error. -/
 def parseHook (s : String) : Option Hook :=
   if s == "-" then some none
   else if s == "K" then some (some fun _ _ => .keep)
@@ -33,7 +33,7 @@ def parseHook (s : String) : Option Hook :=
         | none => .keep
       | _ => .keep
     | _ => .keep)
-  else if s.front == 'F' then
+  else if s.front == 'F' || s.front == 'G' then     -- G: the hook returns a value TOGETHER with the error; still an error
     (s.drop 1).toString.toNat?.map fun k => some fun i _ => if i == k then .fail else .replace (.user i)
   else none
 
